@@ -66,6 +66,10 @@ def main():
             i = max(k for k, x in enumerate(parts) if x.startswith('test_'))
             ids.append('/'.join(parts[:i + 1]) + '.py::' + '::'.join(parts[i + 1:] + [name]))
         junit3 = os.path.join(out, 'junit3_%d.xml' % attempt)
+        # a fresh copy of the example database: the copy used by the first run now holds the failing examples hypothesis found, and would replay them
+        hyp = os.path.join(out, 'hyp_retry_%d' % attempt)
+        subprocess.run(['cp', '-r', os.path.join('/repo', '.hypothesis'), hyp])
+        env = dict(env, HYPOTHESIS_STORAGE_DIRECTORY=hyp)
         cmd3 = [c if not c.startswith('--junitxml') else '--junitxml=' + junit3 for c in cmd2[:-1]] + ids
         subprocess.run(cmd3, cwd=repo, env=env, stdout=subprocess.PIPE, stderr=subprocess.STDOUT, text=True)
         for tc in ET.parse(junit3).getroot().iter('testcase'):
